@@ -200,6 +200,10 @@ class Twin:
                 t["d"] = self.align(d, want, i)
                 t["idx"] = tidx
                 self.texec(t, i)
+        elif op == "replace":
+            t["value"] = A(rec["value"])[cm[a]]
+            self.texec(t, i)
+            cm[rec["out"]] = list(cm[a])
         elif op == "truncate":
             if rec.get("lower") is not None:
                 t["lower"] = A(rec["lower"])[cm[a]]
